@@ -133,6 +133,7 @@ func runCheck(id, tier, only string) (exit int) {
 		pc.run(c)
 		if tier == "thorough" {
 			c.thorough(pc)
+			c.selfTest(id)
 		}
 	}()
 
